@@ -230,24 +230,6 @@ theorem ssEraseKey_eq (hst : StrictTotal lt) {l : List α} (hs : Sorted lt l) (k
     obtain ⟨_, _, _, f1, f2⟩ := spec_absent hA hA' hB hB'
     simp [hr, he, f1, f2]
 
-theorem equiv_iff_eq [DecidableEq α] (hst : StrictTotal lt) (k x : α) :
-    Spec.equiv lt k x = decide (x = k) := by
-  by_cases h : x = k
-  · subst h; simp [Spec.equiv, hst.irrefl]
-  · simp only [h, decide_false]
-    cases h1 : lt x k with
-    | true => simp [Spec.equiv, h1]
-    | false =>
-      cases h2 : lt k x with
-      | true => simp [Spec.equiv, h2]
-      | false => exact absurd (hst.total x k h1 h2) h
-
-theorem countP_add_not (q : α → Bool) (l : List α) :
-    l.countP q + (l.filter (fun x => !q x)).length = l.length := by
-  induction l with
-  | nil => rfl
-  | cons x xs ih => cases h : q x <;> simp [h, List.countP_cons, List.filter_cons] <;> omega
-
 /-- what `remove` + `erase(it, end())` leaves and counts, in spec terms -/
 theorem remove_erase_spec [DecidableEq α] (hst : StrictTotal lt) (l : List α) (k : α) :
     ∃ l1, removeIf l (fun x => decide (x = k)) = .ok (l1, (Spec.eraseKey lt l k).1.length) ∧
